@@ -11,7 +11,7 @@ import vlib
 from vlib import Report, run_tlc, tlc_must_pass, xv_json, read_ndjson, workdir
 
 PID = "C12"
-CONF = {"quick": [("all", 3), ("int", 3), ("str", 3)], "thorough": [("all", 3), ("int", 5), ("str", 5)]}
+CONF = {"quick": [("all", 3), ("int", 3), ("str", 3), ("real", 3)], "thorough": [("all", 3), ("int", 5), ("str", 5), ("real", 5)]}
 CFG = "SPECIFICATION Spec\nCONSTANTS\n  Mode = \"%s\"\n  MaxDepth = %d\n  KeySet = \"%s\"\nINVARIANT OneValuePerKey\nINVARIANT %s\nCHECK_DEADLOCK FALSE\n"
 ORDERED = [{"int"}, {"str"}, {"real"}]
 
